@@ -625,8 +625,6 @@ def gen_node(rng, depth, top, for_text, keys):
         return {"t": "a", "lead": lead, "key": key, "v": v, "trail": trail}
     if r < 0.86:
         ch = [gen_node(rng, depth - 1, False, for_text, keys) for _ in range(rng.choice([0, 1, 2, 3]))]
-        if for_text and not ch:
-            ch = [{"t": "a", "lead": [], "key": "X", "v": I(1), "trail": None}]
         return {"t": "b", "lead": lead, "key": rng.choice(["BLK", "CFG", "A", "B2", "INNER.x"]), "target": rng.choice([None, None, None, "T", "SELF"]), "ch": ch}
     if r < 0.96 or top:
         ch = [gen_node(rng, depth - 1, False, for_text, keys) for _ in range(rng.choice([0, 1, 2]))]
@@ -651,21 +649,13 @@ def gen_doc(rng, for_text):
     nodes = [n for n in nodes if n["t"] != "c"]
     trailing = [rng.choice(COMMENTS)] if rng.random() < 0.15 else []
     if for_text:
-        # a comment line that follows the last child of a block/section is re-read as belonging to that
-        # block (a reader matter outside C18): keep comments away from those places in file documents
-        # (also after a DELETE of the nodes in between: no comment anywhere after the first block/section)
+        # standalone Comment nodes inside blocks are re-read as leading comments of the next sibling
         def tidy(ns):
-            seen = False
             for n in ns:
-                if seen:
-                    n["lead"] = []
                 if n["t"] in ("b", "s"):
-                    seen = True
                     n["ch"] = [c for c in n["ch"] if c["t"] != "c"]
                     tidy(n["ch"])
-            return seen
-        if tidy(nodes):
-            trailing = []
+        tidy(nodes)
     front, grammar = None, None
     q = rng.random()
     if q < 0.08:
@@ -931,17 +921,17 @@ def kf_cli_container_value(case, step):
 
 
 def kf_nested_inline_map(case, step):
-    """a value request (MCP tool) whose value is a map that contains a map, directly or through lists"""
+    """a value request (`_apply_changes`, whichever entry point reaches it) whose value is a map that contains a map, directly or through lists"""
     if case.get("kind", "history") != "history":
         return False
     rq = case["requests"][step]
-    return case.get("entry", "mcp") == "mcp" and any((not is_delete(v)) and has_nested_map(v) for v in dispatch_values(rq))
+    return any((not is_delete(v)) and has_nested_map(v) for v in dispatch_values(rq))
 
 
 def kf_map_relayout(case, step):
     """history: an EARLIER request of the history wrote a value containing a non-empty map; the tool
     lays such a value out differently from how its own next parse/emit does"""
-    if case.get("kind", "history") != "history" or case.get("entry", "mcp") != "mcp":
+    if case.get("kind", "history") != "history":
         return False
     for rq in case["requests"][:step]:
         if any((not is_delete(v)) and contains_nonempty_dict(v) for v in dispatch_values(rq)):
